@@ -24,7 +24,8 @@ scalar Money
 interface Node { id: ID! }
 type Item implements Node { id: ID! price: Money label: String @tag }
 type Item2 implements Node { id: ID! price: Money label: String @tag }
-type Query { item: Node item2: Node value: Int echo(m: Money): String nodef: Int }
+input In { m: Money = 1 ms: [Money!] }
+type Query { item: Node item2: Node value: Int echo(m: Money): String nodef: Int echol(ms: [Money!]): String echoi(i: In): String }
 type Subscription { tick: Int }
 """
 KINDS = ["resolvers", "type_resolver", "scalar", "directive", "subscription"]
@@ -34,6 +35,11 @@ PROBES = [
     ("q", "query($m: Money) { echo(m: $m) }"),
     ("q", "{ __type(name: \"Money\") { name kind } __schema { subscriptionType { name } } }"),
     ("s", "subscription { tick }"),
+    # variables of wrapped / composite types mentioning the per-bundle scalar (value, default, absent)
+    ("q", "query($m: Money!) { echo(m: $m) }"),
+    ("q", "query($ms: [Money!] = [3]) { echol(ms: $ms) a: echol(ms: [4, 5]) }"),
+    ("q", "query($zs: [Money!] = [3], $z: Money! = 2) { echol(ms: $zs) echo(m: $z) }"),
+    ("q", "query($i: In!, $is: In = {ms: [8]}) { echoi(i: $i) b: echoi(i: $is) c: echoi(i: {m: 6}) }"),
 ]
 
 
@@ -85,6 +91,14 @@ def register(i, kinds):
         @Resolver("Query.echo", schema_name=name)
         async def r_echo(p, a, c, info):
             return "b%d:%r" % (i, a)
+
+        @Resolver("Query.echol", schema_name=name)
+        async def r_echol(p, a, c, info):
+            return "bl%d:%r" % (i, a)
+
+        @Resolver("Query.echoi", schema_name=name)
+        async def r_echoi(p, a, c, info):
+            return "bi%d:%r" % (i, sorted(a.get("i", {}).items()))
     if "type_resolver" in kinds and i % 3 == 1:
         @TypeResolver("Node", schema_name=name)
         def tr(result, ctx, info, abstract_type):
@@ -111,7 +125,7 @@ def probe(engine, variables_value):
     for kind, text in PROBES:
         try:
             if kind == "q":
-                out.append(harness.run(engine.execute(text, variables={"m": variables_value})))
+                out.append(harness.run(engine.execute(text, variables={"m": variables_value, "ms": [1, 2], "i": {"m": variables_value}})))
             else:
                 async def go():
                     return [r async for r in engine.subscribe(text)]
